@@ -39,7 +39,11 @@ func init() {
 			"(order, ids, from/to/subject/date, seen, size, content) and VisitMailboxes are compared with the reference model; every " +
 			"later operation is judged as in C07/C08; a retention scan must remove exactly the messages of the old date class.  " +
 			"A case is non-trivial when a non-empty state went through a reopen/restart; distinct by (mode, cap, kinds of mutation " +
-			"that preceded a reopen, other features reached).",
+			"that preceded a reopen, other features reached).  Stream burst (24 / 360 cases): a store filled with 2-4 mailboxes (one or two of " +
+			"100-400 messages) goes through 6-12 rounds of: reopen (new store object; every fourth case a fresh process per round), then as the " +
+			"FIRST accesses 4-16 concurrent readers released together (GetMessages, GetMessage by id / latest / missing id, VisitMailboxes; most " +
+			"start on the same mailbox), each of which must see exactly the model; a sequential read of the same object; 1-3 writes; reopen and " +
+			"sequential read.  GOMAXPROCS >= 4; verdicts from results only.",
 		Assumptions: []string{
 			"a restart is a process that exits normally after its last store call returned and a new process that constructs file.New on the same path (crashes are C11)",
 			"message dates are either 1971-2015 or 2100-2200 and the retention period is 1h..1y, so the cut-off computed from the machine clock (assumed to lie in 2021..2098) is never within years of a message date",
@@ -74,6 +78,15 @@ func init() {
 				"restart/feat:restart-after-purge":                               10 * k,
 				"restart/adds_in_same_second_as_live_message_of_earlier_process": 100 * k,
 				"restart/op:add":                                                 1000 * k,
+				// stream burst: concurrent readers as the first accesses to a reopened store
+				"burst/rounds":  100 * k,
+				"burst/readers": 500 * k,
+				"burst/rounds_2plus_first_reads_on_mailbox_of_100plus": 50 * k,
+				"burst/rounds_with_overlapping_first_reads":            30 * k,
+				"burst/restart_mode_rounds":                            15 * k,
+				"burst/reader_messages_compared":                       20000 * k,
+				"burst/writes_after_first_reads":                       100 * k,
+				"burst/reopens_after_write":                            100 * k,
 			}
 		},
 		ChildTimeout: func(tier string) time.Duration {
@@ -111,6 +124,12 @@ func run(c *fw.Ctx) {
 		runRestart(c, i, r)
 	})
 	c.Cases("service", c.N(40, 600), func(i int, r *fw.Rand) { runService(c, i, r) })
+	c.Cases("burst", c.N(24, 360), func(i int, r *fw.Rand) {
+		ok, dump := c.Within(10*time.Minute, func() { runBurst(c, i, r) })
+		if !ok {
+			c.Hang("store-operation", "a history with concurrent first readers after a reopen did not finish within the watchdog", dump)
+		}
+	})
 }
 
 func storageCfg(dir string, cap int, period time.Duration) config.Storage {
